@@ -196,6 +196,26 @@ try:
         out['tree_upgma'] = str(lex.tree)
     except Exception as ex:  # noqa
         out['tree'] = 'raised ' + type(ex).__name__
+    # the tree / distance / group calculations of the wordlist level in every mode, forced a second time on the same object, and
+    # against a fresh object: the calculation reads the rows, not what an earlier calculation left behind
+    try:
+        from lingpy.basic.wordlist import Wordlist as _WL2
+        for mode_ in ('swadesh', 'shared', 'jaccard'):
+            for tc_ in ('upgma', 'neighbor'):
+                w1 = _WL2(d)
+                w1.add_entries('scaid', {k: lex[k, 'scaid'] for k in lex}, lambda x: x)
+                w1.calculate('tree', ref='scaid', tree_calc=tc_, mode=mode_, force=True)
+                t1_ = str(w1.tree)
+                w1.calculate('tree', ref='scaid', tree_calc=tc_, mode=mode_, force=True)
+                t2_ = str(w1.tree)
+                w2 = _WL2(d)
+                w2.add_entries('scaid', {k: lex[k, 'scaid'] for k in lex}, lambda x: x)
+                w2.calculate('tree', ref='scaid', tree_calc=tc_, mode=mode_, force=True)
+                out['repeat:calculate(tree, mode=%s, tree_calc=%s, force=True) twice on one object' % (mode_, tc_)] = (t1_ == t2_ == str(w2.tree))
+    except ZeroDivisionError:
+        out['note:wordlist-level tree repetition rejected (two languages share no concept)'] = True
+    except Exception as ex:  # noqa
+        out['note:wordlist-level tree repetition raised ' + type(ex).__name__] = True
 except Exception as ex:  # noqa
     out['error'] = type(ex).__name__ + ': ' + str(ex)[:200]
 sys.stdout.write('\n@@PROBE@@' + json.dumps(out, sort_keys=True) + '\n')
